@@ -761,6 +761,42 @@ where
         // (called on the library iterator itself, not through `take`, so that an overridden count() is the one that runs)
         let c = it.count();
         vensure!(c == n - k.min(n), "iterator-adaptor/count-after-partial", "{}: after {} calls of next(), count() = {}, expected {}", what, k.min(n), c, n - k.min(n));
+        // last() / nth() / size_hint() after a consumed prefix - including the prefix that is exactly everything, not yet followed by
+        // the call that returns None
+        let mut it = mk();
+        for _ in 0..k.min(n) {
+            it.next();
+        }
+        let (lo, hi) = it.size_hint();
+        let left = n - k.min(n);
+        vensure!(lo <= left && hi.map(|h| h >= left).unwrap_or(true), "iterator-adaptor/size_hint", "{}: after {} calls of next(), size_hint() = ({}, {:?}) but {} items are left", what, k.min(n), lo, hi, left);
+        let l = it.last();
+        let exp = if k.min(n) < n { want.last() } else { None };
+        vensure!(l.as_ref() == exp, "iterator-adaptor/last-after-partial", "{}: after {} calls of next(), last() = {:?}, expected {:?}", what, k.min(n), l, exp);
+        let mut it = mk();
+        for _ in 0..k.min(n) {
+            it.next();
+        }
+        let got = it.nth(1);
+        vensure!(got.as_ref() == want.get(k.min(n) + 1), "iterator-adaptor/nth", "{}: after {} calls of next(), nth(1) = {:?}, expected {:?}", what, k.min(n), got, want.get(k.min(n) + 1));
+    }
+    // distances beyond what an 8-bit, 16-bit or 32-bit cursor can hold
+    for &d in &[255usize, 256, 257, 258, 511, 512, 65535, 65536, 65537, 1 << 32, (1 << 32) + 1, usize::MAX - 1, usize::MAX] {
+        let got = mk().nth(d);
+        vensure!(got.as_ref() == want.get(d), "iterator-adaptor/nth", "{}: nth({}) = {:?}, expected {:?}", what, d, got, want.get(d));
+        let got: Vec<T> = mk().skip(d).take(cap).collect();
+        let exp: Vec<T> = want.iter().skip(d).cloned().collect();
+        vensure!(got == exp, "iterator-adaptor/skip", "{}: skip({}) yields {} items {:?}, expected {} items", what, d, got.len(), &got[..got.len().min(4)], exp.len());
+        if d < usize::MAX {
+            let got: Vec<T> = mk().step_by(d + 1).take(cap).collect();
+            let exp: Vec<T> = want.iter().step_by(d + 1).cloned().collect();
+            vensure!(got == exp, "iterator-adaptor/step_by", "{}: step_by({}) yields {} items, expected {}", what, d + 1, got.len(), exp.len());
+        }
+        let mut it = mk();
+        if it.next().is_some() {
+            let got = it.nth(d);
+            vensure!(got.as_ref() == want.get(d.saturating_add(1)).filter(|_| d < usize::MAX), "iterator-adaptor/nth", "{}: after one call of next(), nth({}) = {:?}, expected {:?}", what, d, got, want.get(d.saturating_add(1)));
+        }
     }
     for s in [1usize, 2, 3, k % 5 + 1] {
         let got: Vec<T> = mk().step_by(s).take(cap).collect();
